@@ -19,7 +19,10 @@ CFG = dict(
          "incl. values; gap-free ids; PrevAlh chain; BlRoot = Merkle root of the recovered Alhs; DualProof(acked, "
          "recovered) and (acked, fresh) verify; Get after WaitForIndexingUpto = latest committed value; a fresh commit "
          "succeeds); a sample of images is continued into a second traced incarnation (recovery + fresh commits) and "
-         "crashed again. Plus 1+n/5 ROTATION workloads (FileSize 256..1024: tx records straddle chunk boundaries, every log "
+         "crashed again. Directed scenarios on the real store = the Coq witnesses: A (record without values, fixed ccd70f3), "
+         "B (stale tree leaf after two crashes, fixed b260503), C (PreallocFiles partial commit entry, known), D (tree logs "
+         "cut behind an un-synced commit-log rewind, fixed 0b488aa): a recurrence of a fixed one is a VIOLATION with crash "
+         "point and image. Plus 1+n/5 ROTATION workloads (FileSize 256..1024: tx records straddle chunk boundaries, every log "
          "rotates several times; long schedules; a crash point after EVERY acknowledgement) whose store lives on a disk "
          "file system and whose durability is OBSERVED per physical chunk file after every call (cachestat(2): a written "
          "file without dirty/writeback pages has been fsynced; otherwise its writes stay pending whatever the API was "
@@ -54,9 +57,10 @@ CFG = dict(
         "AHT reset to the committed id (fix 2077e08) / up-to-date / re-link), the tree fsynced inside sync() before the "
         "commit entries (fix b260503; model switch c_ahtsync = Tie.C03.repair_applied = true; the tie observes whether "
         "the tree fsyncs inside sync(), so the switch must agree with the code), ahtree.ResetSize = sync + commit-log rewind "
-        "WITHOUT fsync (fix 6a85281; model switch c_ahtreset = Tie.C03.aht_durable_reset = RCut; RSync = proposed repair "
-        "fixes/C03-aht-durable-reset.diff, theorems *_repaired; the correspondence run does not exercise the switch: its "
-        "cases are first incarnations, where ResetSize is a no-op), rewinds as truncations (fix 09014a8; not for "
+        "(fix 6a85281) + fsync of the commit log (fix 0b488aa; model switch c_ahtreset = Tie.C03.aht_durable_reset = RSync; "
+        "RCut / RMem = the code before, kept for the historical witness D; the correspondence run does not exercise the "
+        "switch: its cases are first incarnations, where ResetSize is a no-op — it is exercised by the falsifier: directed "
+        "scenarios B and D and every double-crash image), rewinds as truncations (fix 09014a8; not for "
         "preallocated files), open-time cut of a partial last entry, ahtree.OpenWith size checks. ABSTRACTED: "
         "tx record = id|prevAlh|len|body|alh with an opaque body carrying one value extent; H arbitrary 32-byte function; "
         "AHT = one leaf log (payload+digest logs) + commit log. NOT "
